@@ -702,8 +702,10 @@ def tie(ctx):
     lk = tie_lookup(ctx, dist)
     lg = tie_log(ctx, dist)
     dis += lg['dis']
+    pv = tie_platform(ctx, dist)
+    dis += pv['dis']
     dis += lk['dis']
-    n_eval = len(pcs) + len(fcs) + ext['n'] + lk['n'] + lg['n']
+    n_eval = len(pcs) + len(fcs) + ext['n'] + lk['n'] + lg['n'] + pv['n']
     return {
         'evaluations': n_eval,
         'distinct_nontrivial': nontriv,
@@ -1394,6 +1396,161 @@ def gen_sessions_cases(ctx, deep):
     return out
 
 
+# ------------------------------------------------------------------ protocol generation per session (PlatformService)
+
+MAGIC = b'Bitcraze Crazyflie'
+
+
+def mk_cf_with_platform(trace):
+    """fake cf whose `platform` is the REAL PlatformService (driven by packets on ports 15 and 13)"""
+    from cflib.crazyflie.platformservice import PlatformService
+    cf = fk.FakeCF(-1, trace)
+    cf.link_uri = 'radio://0/80/2M/E7E7E7E7E7'
+    cf.platform = PlatformService(cf)
+    return cf
+
+
+def tie_platform(ctx, dist):
+    rng = ctx.rng
+    terms, exp, cases = [], [], []
+    for _ in range(ctx.scale(40, 400)):
+        evs = []
+        for _ in range(rng.randint(1, 10)):
+            r = rng.random()
+            if r < 0.3:
+                evs.append(('F', rng.choice([7, 7, 8])))
+            elif r < 0.55:
+                evs.append(('P', 15, rng.choice([1, 1, 1, 0, 2]), rng.choice([MAGIC + b'\0', MAGIC, MAGIC[:17], b'\0', b'Bitcraze Crazyfliex', b''])))
+            elif r < 0.9:
+                evs.append(('P', 13, rng.choice([1, 1, 1, 0, 2]), rng.choice([bytes([0, rng.choice([0, 3, 4, 10, 255])]), b'\0', b'', bytes([1, 5]), bytes([0, 7, 9])])))
+            else:
+                evs.append(('P', rng.choice([5, 2, 14]), rng.randrange(4), bytes(rng.randrange(128) for _ in range(rng.randint(0, 4)))))
+        trace = []
+        cf = mk_cf_with_platform(trace)
+        obs = []
+        for e in evs:
+            mark = len(trace)
+            if e[0] == 'F':
+                cf.link_uri = 'radio://0/%d/2M' % e[1]
+                cf.platform.fetch_platform_informations(lambda: trace.append(('done', cf.platform.get_protocol_version())))
+            else:
+                cf.deliver(e[1], e[2], bytes(e[3]))
+        for t in trace:
+            if t[0] == 'send':
+                obs += [1, t[1], t[2]] + lenc(t[3])
+            elif t[0] == 'done':
+                obs += [2, t[1]]
+            elif t[0] == 'raised':
+                obs += [3, EXN.get(t[1], 99)]
+        obs = [cf.platform.get_protocol_version(), 0 if cf.platform._callback is None else 1] + obs
+        terms.append('enc_prun (prun p_init [%s])' % '; '.join(('PFetch %d' % e[1]) if e[0] == 'F' else ('PPkt %d %d %s' % (e[1], e[2], q_str(e[3]))) for e in evs))
+        exp.append(obs)
+        cases.append(evs)
+    dis = []
+    for bi, mv in compare_blocks(HEADER.replace('C03.Model.', 'C03.Model C03.Version.'), terms, exp, tag='c03v', shard=max(2, len(terms) // 8 + 1)):
+        dis.append({'what': 'PlatformService handshake: model and implementation differ', 'events': repr(cases[bi])[:600],
+                    'model': None if mv is None else mv[:40], 'impl': exp[bi][:40]})
+        if len(dis) > 2:
+            break
+    dist['platform_traces'] = len(terms)
+    return {'dis': dis, 'n': len(terms)}
+
+
+def oracle_versions_case(case):
+    """ONE Crazyflie-like object (real PlatformService, real Log, real Param, one cf, one URI) connected to a sequence
+    of devices with DIFFERENT protocol versions; each device answers the way a firmware of its version does.  After
+    every session: both tables exactly the device's, for both generations and for tables of more than 255 entries."""
+    import cflib.crazyflie.log as lg
+    import cflib.crazyflie.param as pm
+    trace = []
+    cf = mk_cf_with_platform(trace)
+    log = lg.Log(cf)
+    par = pm.Param.__new__(pm.Param)
+    par.cf = cf
+    par.toc = pm.Toc()
+    cache = StubCache(trace, {})
+
+    def fail(klass, detail):
+        return {'class': klass, 'case': case, 'detail': detail, 'observed': detail,
+                'expected': 'every session: tables exactly the device tables (the generation of THAT device)'}
+    for sn, sess in enumerate(case['sessions']):
+        ver = sess['ver']
+        L = [ditem_unjson(d) for d in sess['log']]
+        P = [ditem_unjson(d) for d in sess['param']]
+        ldev = fk.PyDev(raw_items('log', L), sess['crc_log'])
+        pdev = fk.PyDev(raw_items('param', P), sess['crc_param'])
+        cf.link_uri = sess.get('uri', 'radio://0/80/2M/E7E7E7E7E7')
+        done = []
+        mark = len(trace)
+        par.toc = pm.Toc()                                   # Param._connection_requested
+
+        def after_platform():
+            done.append('platform')
+            par._useV2 = cf.platform.get_protocol_version() >= 4
+            log.refresh_toc(lambda: done.append('log'), cache)
+        cf.platform.fetch_platform_informations(after_platform)
+        # the device answers the source request, then (if asked) the version request
+        # the device only answers requests it receives
+        if any(t[0] == 'send' and t[1] == 15 and t[2] == 1 for t in trace[mark:]):
+            cf.deliver(15, 1, (MAGIC + b'\0') if ver >= 0 else b'\0')
+        if ver >= 0 and any(t[0] == 'send' and t[1] == 13 and t[2] == 1 for t in trace[mark:]):
+            cf.deliver(13, 1, bytes([0, ver]))
+        if 'platform' not in done:
+            return fail('platform_handshake_not_completed', 'session %d: no completion after the handshake' % sn)
+        cf.deliver(5, 1, bytes([5, 0, 0]))
+        lbase = len([t for t in trace[:mark] if t[0] == 'send' and t[1] == 5 and t[2] == 0])
+        for _ in range(len(L) + 3):
+            reqs = cf.sent(5, 0)[lbase:]
+            if 'log' in done or not reqs:
+                break
+            r = ldev.reply_fw(ver, reqs[-1][3])
+            if r is None:
+                break
+            cf.deliver(5, 0, r)
+        if 'log' not in done:
+            return fail('log_download_does_not_finish', 'session %d (version %d): log download does not finish' % (sn, ver))
+        pbase = len(cf.sent(2, 0))
+        par.refresh_toc(lambda: done.append('param'), cache)
+        for _ in range(len(P) + 3):
+            reqs = cf.sent(2, 0)[pbase:]
+            if 'param' in done or not reqs:
+                break
+            r = pdev.reply_fw(ver, reqs[-1][3])
+            if r is None:
+                break
+            cf.deliver(2, 0, r)
+        exc = [t for t in trace[mark:] if t[0] == 'raised']
+        if exc:
+            return fail('session_raises', 'session %d: %r' % (sn, exc[0][1:]))
+        if 'param' not in done:
+            return fail('param_download_does_not_finish', 'session %d (version %d): parameter download does not finish' % (sn, ver))
+        for cls, items, toc in (('log', L, log.toc), ('param', P, par.toc)):
+            bad = check_table(cls, items, toc)
+            if bad:
+                return fail('table_differs_for_device_generation', 'session %d (device version %d, %d %s entries): %s' % (sn, ver, len(items), cls, bad))
+    return None
+
+
+def gen_versions_cases(ctx, deep):
+    rng = ctx.rng
+    out = []
+    seqs = [[3, 10], [10, 3], [-1, 10], [10, -1], [3, 3, 7], [7, 7], [0, 4], [4, 3, 255]]
+    for k, seq in enumerate(seqs * (2 if deep else 1)):
+        sessions = []
+        for ver in seq:
+            big = ver >= 4 and rng.random() < (0.7 if k < 4 else 0.2)
+            nl = rng.choice([256, 257, 300]) if big else rng.choice([0, 1, 3, 8])
+            npar = rng.choice([256, 300]) if big and rng.random() < 0.5 else rng.choice([1, 2, 5])
+            L = gen_items(rng, 'log', nl, ver >= 4)
+            P = gen_items(rng, 'param', npar, ver >= 4)
+            for it in P:
+                it['ext'] = False
+            sessions.append({'ver': ver, 'log': [ditem_json(i) for i in L], 'param': [ditem_json(i) for i in P],
+                             'crc_log': rng.getrandbits(32), 'crc_param': rng.getrandbits(32)})
+        out.append({'kind': 'versions', 'sessions': sessions})
+    return out
+
+
 # ------------------------------------------------------------------ lookups
 
 def impl_lookups(toc_lists_, queries):
@@ -1717,6 +1874,8 @@ def _run_oracle_case(case):
             return oracle_log_case(case)
         if case.get('kind') == 'sessions':
             return oracle_sessions_case(case)
+        if case.get('kind') == 'versions':
+            return oracle_versions_case(case)
         return oracle_fetch_case(case)
     except Exception as e:  # noqa
         import traceback
@@ -1736,7 +1895,7 @@ def corpus_cases():
 def oracle(ctx, deep=False):
     fails = []
     n = 0
-    for case in corpus_cases() + _mk_oracle_cases(ctx, deep) + gen_log_oracle_cases(ctx, deep) + gen_sessions_cases(ctx, deep):
+    for case in corpus_cases() + _mk_oracle_cases(ctx, deep) + gen_log_oracle_cases(ctx, deep) + gen_sessions_cases(ctx, deep) + gen_versions_cases(ctx, deep):
         n += 1
         f = _run_oracle_case(case)
         if f:
